@@ -493,7 +493,7 @@ With agent-refine's theorems merged (`Build.push_takeRest`, `Props.C01.runRows_r
            longer assumptions: `build_builder` refuses those fields, repo fixes 095456f / 7359431, and `BuiltFor` is
            derived from `newRoot fields = ok _` alone)
   rows     `SValOK` (an iN/uN/f32/f64 call carries a value of that width).  The former assumption `rawOK` (raw key/value
-           call streams alternate) is GONE: since repo fix bcc3416 a Map builder refuses the streams that do not
+           call streams alternate) is GONE: since repo fix eafdf15 a Map builder refuses the streams that do not
            (`Props.C01.map_refuses_non_alternating`), so `toMarrow … = .ok arrs` already excludes them
   Ext      `ExtOK` (what the external chrono parsers return fits the column's storage)
 (the former size assumption `ViewSmall` is now derived: the view builders refuse lengths / offsets beyond `i32::MAX`, the
